@@ -718,6 +718,13 @@ func (w *dscWorld) deliver(m dscMsg) {
 
 // request performs a real subscription / binding request call of peer p.
 func (w *dscWorld) request(kind string, pn int, cEnt []uint, cFeat int, sEnt []uint, sFeat int) {
+	w.peers[pn].rdev.HandleSpineMesssage(w.requestBytes(kind, pn, cEnt, cFeat, sEnt, sFeat, false))
+	h.Settle(dscBase)
+}
+
+// requestBytes builds the call datagram of a subscription / binding request of peer pn (ack: with ackRequest, so that
+// a granted request is answered with an explicit success result).
+func (w *dscWorld) requestBytes(kind string, pn int, cEnt []uint, cFeat int, sEnt []uint, sFeat int, ack bool) []byte {
 	p := w.peers[pn]
 	ft := dscFTypes[dscLocalServers[fmt.Sprintf("%s/%d", h.EntU(sEnt), sFeat)]]
 	ca, sa := h.FA(p.dev, cEnt, uint(cFeat)), h.FA(dscLocalDev, sEnt, uint(sFeat))
@@ -730,9 +737,11 @@ func (w *dscWorld) request(kind string, pn int, cEnt []uint, cFeat int, sEnt []u
 	p.ctr++
 	hd := model.HeaderType{AddressSource: h.FA(p.dev, []uint{0}, 0), AddressDestination: h.FA(dscLocalDev, []uint{0}, 0),
 		MsgCounter: util.Ptr(model.MsgCounterType(p.ctr)), CmdClassifier: util.Ptr(model.CmdClassifierTypeCall)}
+	if ack {
+		hd.AckRequest = util.Ptr(true)
+	}
 	b, _ := json.Marshal(model.Datagram{Datagram: model.DatagramType{Header: hd, Payload: model.PayloadType{Cmd: []model.CmdType{c}}}})
-	p.rdev.HandleSpineMesssage(b)
-	h.Settle(dscBase)
+	return b
 }
 
 func (w *dscWorld) localClient(key string) api.FeatureLocalInterface {
@@ -1163,6 +1172,7 @@ func keys(m map[string]bool) []string {
 type dscStats struct {
 	cascadeSteps, removedEntities, mixed, cascadeHist, hist, readdOtherType, noType int
 	shapes                                                                          map[string]int
+	conc                                                                            map[string]int // concurrent steps by outcome
 }
 
 // runDscHistory executes ops on a fresh world and on the model, judges every discovery message by the
@@ -1186,10 +1196,18 @@ func runDscHistory(r *h.Report, d *h.Driver, ops []string, st *dscStats) {
 		done = append(done, op)
 		var impl, line, kind string
 		var stepEvs []string // entity events of this step, with the SKI they carry
+		// conc REQ / msg ...: the discovery message is delivered while request REQ of the OTHER peer is processed on
+		// its own goroutine inside the cascade of the message (discovery_conc_test.go); judged as the message plus the request
+		var conc *dscConc
+		if f[0] == "conc" {
+			conc = dscParseConc(w, f)
+			op = strings.Join(f[8:], " ")
+			f = strings.Fields(op)
+		}
 		switch f[0] {
 		case "msg":
 			m, ok := dscParseMsg(op)
-			if !ok || w.peers[m.peer] == nil {
+			if !ok || w.peers[m.peer] == nil || (conc != nil && conc.pn == m.peer) {
 				panic("bad op " + op)
 			}
 			prev, _, _ := w.observeTree(m.peer)
@@ -1197,13 +1215,28 @@ func runDscHistory(r *h.Report, d *h.Driver, ops []string, st *dscStats) {
 			otherBefore, _, _ := w.observeTree(other)
 			regBefore := w.observeReg()
 			w.evh.take()
-			if pan := h.Recover(func() { w.deliver(m) }); pan != nil {
+			if pan := h.Recover(func() {
+				if conc != nil {
+					conc.arm(w.peers[m.peer].ski)
+					defer conc.disarm()
+				}
+				w.deliver(m)
+			}); pan != nil {
 				r.SpecFail("C06/panic", done, fmt.Sprintf("well-formed discovery message panics: %v", pan))
+				return
+			}
+			if conc != nil && !conc.finish(r, done) {
 				return
 			}
 			got, gotOrdered, problems := w.observeTree(m.peer)
 			otherAfter, _, _ := w.observeTree(other)
 			regAfter := w.observeReg()
+			regFinal := regAfter
+			if conc != nil {
+				// SPEC for the concurrent request: answered with success <=> registered; what is judged below is the
+				// registry without the entry the granted request created
+				regAfter = conc.judge(r, done, regBefore, regAfter)
+			}
 			evs := w.evh.take()
 			stepEvs = evs
 			// ---- SPEC monitor (no model involved)
@@ -1295,6 +1328,30 @@ func runDscHistory(r *h.Report, d *h.Driver, ops []string, st *dscStats) {
 			}
 			impl = fmt.Sprintf("T %s | E %s | %s", gotOrdered, es, regAfter)
 			line = op
+			if conc != nil {
+				kind = "conc:" + conc.kind + ":" + conc.outcome()
+				if d != nil {
+					// the model runs the two operations one after the other: message, then the granted request
+					want := d.Ask(line)
+					if impl != want {
+						r.Mismatch(done, impl, want, "discovery message of "+strings.Join(done[len(done)-1:], ""))
+						return
+					}
+					if conc.granted {
+						if want := d.Ask(conc.op()); regFinal.String() != want {
+							r.Mismatch(done, regFinal.String(), want, "request processed inside the cascade: "+conc.op())
+							return
+						}
+					}
+					line = ""
+				}
+				if st != nil {
+					st.conc[conc.outcome()]++
+					if conc.fired {
+						st.conc["the handler's wait ended: request "+conc.parked]++
+					}
+				}
+			}
 		case "sub", "bind":
 			if len(f) != 6 {
 				panic("bad op " + op)
@@ -1350,7 +1407,7 @@ func runDscHistory(r *h.Report, d *h.Driver, ops []string, st *dscStats) {
 				return
 			}
 		}
-		if f[0] == "msg" {
+		if f[0] == "msg" && conc == nil {
 			// addresses (device part included) and Entity() / FeatureByAddress(): SPEC on the implementation's own
 			// answers, then the same observation from the model (Spine.Disc.findE / resolveF / Dev)
 			pn, _ := strconv.Atoi(f[1])
@@ -2005,6 +2062,7 @@ func TestDiscovery(t *testing.T) {
 		"before the rejected one and drops the rest), the other SPEC clauses still apply. Not generated: entity elements without description, device-address "+
 		"mismatch, maxResponseDelay. non-trivial = a history in which an entity removal changed a registry or the client-side bookkeeping (distinct by op text)")
 	defer r.Write()
+	h.JitterStart() // the kept-time reference is one more goroutine: it has to run before the baseline is measured
 	if ops := h.ReplayOps("discovery"); ops != nil {
 		d := h.StartDriver("drv_disc", dscProbeAll(r)...)
 		defer d.Close()
@@ -2017,7 +2075,7 @@ func TestDiscovery(t *testing.T) {
 	if a := d.Ask("nonsense"); a != "bad-op" {
 		panic("drv_disc answers an unknown op with " + a)
 	}
-	st := &dscStats{shapes: map[string]int{}}
+	st := &dscStats{shapes: map[string]int{}, conc: map[string]int{}}
 	// corpus first
 	for _, name := range dscCorpusOrder {
 		runDscHistory(r, d, dscCorpus[name], st)
@@ -2029,6 +2087,14 @@ func TestDiscovery(t *testing.T) {
 		} else {
 			r.Info["corpus "+name] = "not run: the tree under test panics or wedges on it (C05)"
 		}
+	}
+	// the cascade with a request of the other peer processed inside it (discovery_conc_test.go)
+	for _, name := range dscConcCorpusOrder {
+		runDscHistory(r, d, dscConcCorpus[name], st)
+	}
+	crng := h.Rng(66)
+	for i, n := 0, h.Scale(40, 400); i < n; i++ {
+		runDscHistory(r, d, genDscConcHistory(crng), st)
 	}
 	rng := h.Rng(6)
 	hist := h.Scale(900, 9000)
@@ -2072,6 +2138,13 @@ func TestDiscovery(t *testing.T) {
 		r.Floor("binding requests granted", r.Dist["bind:granted"], r.Dist["bind:granted"]+r.Dist["bind:refused"], 0.6)
 		r.Floor("client-side subscribe / bind accepted", r.Dist["csub:done"]+r.Dist["cbind:done"], r.Dist["csub:done"]+r.Dist["cbind:done"]+r.Dist["csub:refused"]+r.Dist["cbind:refused"], 0.9)
 		r.Floor("histories in which a removal changed a registry", st.cascadeHist, st.hist, 0.3)
+		concAll := 0
+		for k, v := range st.conc {
+			if strings.HasPrefix(k, "granted") || strings.HasPrefix(k, "refused") {
+				concAll += v
+			}
+		}
+		r.Floor("concurrent requests started inside the cascade and granted", st.conc["granted:inside-the-cascade"], concAll, 0.5)
 	} else {
 		r.Info["floors"] = fmt.Sprintf("not evaluated: %d histories were cut short by a disagreement with the model", r.MismatchN)
 	}
@@ -2081,6 +2154,9 @@ func TestDiscovery(t *testing.T) {
 		r.Info["shape: "+k] = v
 	}
 	r.Info["entities removed"] = st.removedEntities
+	for k, v := range st.conc {
+		r.Info["request of the other peer during a cascade, "+k] = v
+	}
 	r.Info["steps in which a removal changed a registry or the client-side bookkeeping"] = st.cascadeSteps
 	r.Info["messages that add and remove in one notification"] = st.mixed
 }
